@@ -17,6 +17,7 @@ RULE = ("generated domain expressions (tpmon.gen_geo, nesting <= 2 quick / 3 tho
         "parameter rows given in shuffled order) x query sets (box-uniform, near-boundary shells, own boundary samples); "
         "non-trivial = at least 20 query rows outside the tolerance band were compared; distinct = (expression shape, "
         "target interior/boundary, k class, parameter dependence)")
+RULE += '; a sixth of the cases at length scales 0.01 / 0.05 / 30 / 300; every 40th case a 100-300 unit polyhedron with a user tolerance; every answer is re-queried with the columns stored differently (another variable / the parameters in front of or behind the coordinates)'
 REQUIRED_REACH = ["Circle._contains", "CircleBoundary._contains", "Parallelogram._contains", "ParallelogramBoundary._contains",
                   "Triangle._contains", "TriangleBoundary._contains", "Interval._contains", "IntervalBoundary._contains",
                   "Sphere._contains", "SphereBoundary._contains", "ShapelyPolygon._contains", "ShapelyBoundary._contains",
